@@ -501,7 +501,7 @@ async fn s_two_waiters(h: &mut Host) -> Result<(), Fail> {
 /// minimal HTTP/1.1 endpoint for push deliveries: hands every request body to the scenario and answers 200
 async fn push_endpoint() -> Result<(String, tokio::sync::mpsc::UnboundedReceiver<Vec<u8>>), Fail> { push_endpoint_delayed(0).await }
 /// `delay_ms`: the endpoint answers each request only after that long (a slow consumer)
-async fn push_endpoint_delayed(delay_ms: u64) -> Result<(String, tokio::sync::mpsc::UnboundedReceiver<Vec<u8>>), Fail> {
+pub(crate) async fn push_endpoint_delayed(delay_ms: u64) -> Result<(String, tokio::sync::mpsc::UnboundedReceiver<Vec<u8>>), Fail> {
     use tokio::io::{AsyncReadExt, AsyncWriteExt};
     let l = tokio::net::TcpListener::bind("127.0.0.1:0").await.map_err(setup("bind push endpoint"))?;
     let port = l.local_addr().map_err(setup("addr"))?.port();
